@@ -25,7 +25,7 @@ WITNESSES = {'quick': ['success', 'user-failure', 'mkdir-fault', 'stale-target']
 
 CHAIN = ['a', 'a/b', 'a/b/c', 'a/b/c/t']
 UNI = ['a', 'a/t', 'a/b', 'a/b/z', 'a/b/c', 'a/b/c/t']
-MODES = ['ok', 'raise_before', 'raise_after', 'no_create', 'nonjson']
+MODES = ['ok', 'raise_before', 'raise_after', 'no_create', 'nonjson', 'raise_TypeError', 'raise_RuntimeError', 'raise_FileNotFoundError']
 SPELL = ['abs', 'rel', 'dotdot', 'slashes']
 
 
@@ -72,6 +72,11 @@ class Run:
         self.obs['virt_in'] = (b.is_file(fn), b.exists(fn))
         if self.mode == 'raise_before':
             self.raised = Boom()
+            raise self.raised
+        if self.mode.startswith('raise_') and self.mode not in ('raise_before', 'raise_after'):
+            # a user exception of a type the library itself raises and handles
+            self.raised = {'raise_TypeError': TypeError, 'raise_RuntimeError': RuntimeError,
+                           'raise_FileNotFoundError': FileNotFoundError}[self.mode]('raised by the user function')
             raise self.raised
         if self.mode != 'no_create':
             self.w.user_write(self.fs, fn, self.content)
